@@ -7,6 +7,7 @@
 // with 1..3 harness pull readers of mixed temporality and 0..2 views on the instrument, in lock-step
 // with a reference model (per reader and stream: pending delta per attribute set, running total,
 // end of the previous interval).
+#include <algorithm>
 #include <chrono>
 #include <map>
 #include <memory>
@@ -123,13 +124,15 @@ std::string show_units(Kind kind, int64_t u) {
 
 struct ReaderCfg { int n; bool delta[3]; };
 // A run is split into parts with different bounds: (depth, alphabet, reader configurations).
-//   small alphabet: attribute sets {} and {a=1}, one value (up-down: +1 and -1)
-//   reps: one reader configuration per multiset of temporalities (readers are interchangeable up to
-//         their position in the collector list); otherwise all 14 ordered configurations
-//   two: (with reps) only the five representatives with at most two readers
-struct Part { int depth; bool small; bool reps; bool two; };
+//   n_attr: attribute sets {} and {a=1} (2) or also {a=2} (3)
+//   one_value: one value per instrument (up-down: +1 and -1) instead of two (up-down: three)
+//   readers: ALL14 = every ordered configuration of 1..3 readers; REP8 = one per multiset of
+//            temporalities (readers are interchangeable up to their position in the collector list)
+//            plus one reordering; REP6 = REP8 without CC and CDD; TWO5 = at most two readers
+enum ReaderSet { ALL14 = 0, REP8 = 1, REP6 = 2, TWO5 = 3 };
+struct Part { int depth; int n_attr; bool one_value; ReaderSet readers; };
 std::vector<Part> g_parts;
-std::vector<ReaderCfg> g_readers_all, g_readers_rep;
+std::vector<ReaderCfg> g_reader_sets[4];
 int g_max_handles = 2;
 const int kNValSmall[3] = {1, 1, 2};
 const int kSmallVal[3][2] = {{0, 0}, {0, 0}, {0, 2}};  // indices into kUnits
@@ -137,20 +140,22 @@ const int kSmallVal[3][2] = {{0, 0}, {0, 0}, {0, 2}};  // indices into kUnits
 void setup(vf::Options &o) {
   o.split_depth = 5;
   o.deadline_s = o.thorough ? 900 : 150;
-  o.table_bits = o.thorough ? 26 : 23;
+  o.table_bits = o.thorough ? 25 : 23;
   opentelemetry::sdk::common::internal_log::GlobalLogHandler::SetLogLevel(opentelemetry::sdk::common::internal_log::LogLevel::None);
   const bool D = true, C = false;
   for (int n = 1; n <= 3; ++n)
     for (int m = 0; m < (1 << n); ++m) {
       ReaderCfg rc{n, {false, false, false}};
       for (int i = 0; i < n; ++i) rc.delta[i] = !((m >> i) & 1);
-      g_readers_all.push_back(rc);
+      g_reader_sets[ALL14].push_back(rc);
     }
-  g_readers_rep = {{1, {D}}, {1, {C}}, {2, {D, D}}, {2, {D, C}}, {2, {C, C}}, {3, {D, D, C}}, {3, {D, C, C}}, {3, {C, D, D}}};
-  if (o.thorough) g_parts = {{5, false, false, false}, {6, false, true, true}, {7, true, true, false}};
-  else g_parts = {{5, false, true, false}};
+  g_reader_sets[REP8] = {{1, {D}}, {1, {C}}, {2, {D, D}}, {2, {D, C}}, {2, {C, C}}, {3, {D, D, C}}, {3, {D, C, C}}, {3, {C, D, D}}};
+  g_reader_sets[REP6] = {{1, {D}}, {1, {C}}, {2, {D, D}}, {2, {D, C}}, {3, {D, D, C}}, {3, {D, C, C}}};
+  g_reader_sets[TWO5] = {{1, {D}}, {1, {C}}, {2, {D, D}}, {2, {D, C}}, {2, {C, C}}};
+  if (o.thorough) g_parts = {{5, 3, false, REP8}, {5, 2, true, ALL14}, {6, 2, true, REP8}, {7, 2, true, TWO5}};
+  else g_parts = {{5, 2, false, REP6}};
   std::string d = o.get("depth");
-  if (!d.empty()) g_parts = {{atoi(d.c_str()), o.get("small") == "1", o.get("allreaders") != "1", o.get("two") == "1"}};
+  if (!d.empty()) g_parts = {{atoi(d.c_str()), atoi(o.get("nattr", "3").c_str()), o.get("onevalue") == "1", (ReaderSet)atoi(o.get("readers", "1").c_str())}};
 }
 
 struct ReaderStream {
@@ -213,11 +218,11 @@ void run(vf::Ctx &c) {
   const int g_depth = P.depth;
   const Kind kind = (Kind)c.pick("kind", 3);
   const int nviews = c.pick("views", 3);
-  const std::vector<ReaderCfg> &g_readers = P.reps ? g_readers_rep : g_readers_all;
-  const int rcfg = c.pick("readers", P.two ? 5 : (int)g_readers.size());
+  const std::vector<ReaderCfg> &g_readers = g_reader_sets[P.readers];
+  const int rcfg = c.pick("readers", (int)g_readers.size());
   const ReaderCfg &RC = g_readers[rcfg];
-  const int n_attr = P.small ? 2 : NATTR;
-  const int n_val = P.small ? kNValSmall[kind] : kNVal[kind];
+  const int n_attr = P.n_attr;
+  const int n_val = P.one_value ? kNValSmall[kind] : kNVal[kind];
   const int R = RC.n;
   const int S = nviews == 2 ? 2 : 1;
 
@@ -254,7 +259,7 @@ void run(vf::Ctx &c) {
   };
   create();
 
-  std::string cfgs = vf::sfmt("%s%s views=%d readers=", P.small ? "small-alphabet " : "", kKindName[kind], nviews);
+  std::string cfgs = vf::sfmt("part%d %s views=%d readers=", part, kKindName[kind], nviews);
   for (int r = 0; r < R; ++r) cfgs += RC.delta[r] ? 'D' : 'C';
   std::string hist;
   std::string outlog;
@@ -298,16 +303,18 @@ void run(vf::Ctx &c) {
         }
       }
     }
-    // which storage the meter collects under which key
-    std::vector<std::pair<std::string, int>> reg;
+    // which storages the meter collects (the key strings are not hashed: a repaired registry may put
+    // addresses into them; what a key collides with is a function of the configuration)
+    std::vector<int> reg;
     for (auto &kv : sdk_meter->storage_registry_) {
       int idx = -1;
       for (size_t i = 0; i < st.size(); ++i)
-        if (static_cast<sdkm::MetricStorage *>(st[i]) == kv.second.get()) idx = (int)i;
-      reg.emplace_back(kv.first, idx);
+        if (static_cast<sdkm::MetricStorage *>(st[i]) == kv.second.get()) { idx = (int)i; break; }
+      reg.push_back(idx);
     }
     std::sort(reg.begin(), reg.end());
-    for (auto &e : reg) { h.add_str(e.first); h.add((uint64_t)e.second); }
+    h.add(0x7e9 + reg.size());
+    for (int e : reg) h.add((uint64_t)e);
     h.add((uint64_t)vf::clock_virtual_ns());  // position of the (deterministic) clock
   };
   auto model_state = [&](vf::H128 &h) {
@@ -348,7 +355,7 @@ void run(vf::Ctx &c) {
     c.step();
     if (op < n_add) {
       int hi = op / (n_attr * n_val), rest = op % (n_attr * n_val);
-      int attr = rest / n_val, vi = P.small ? kSmallVal[kind][rest % n_val] : rest % n_val;
+      int attr = rest / n_val, vi = P.one_value ? kSmallVal[kind][rest % n_val] : rest % n_val;
       c.stage("Add");
       hist += vf::sfmt(" Add(h%d,%s,%s)", hi, show_units(kind, kUnits[kind][vi]).c_str(), kAttrName[attr]);
       handles[hi]->add(vi, attr);
